@@ -188,7 +188,9 @@ Theorem C01_source_static_max :
   src_static_max ["release_max_level_off"%string] = 5 /\
   src_static_max ["max_level_debug"%string; "max_level_warn"%string] = 2 /\
   src_static_max_of true ["max_level_info"%string; "release_max_level_trace"%string] = 5 /\
-  src_static_max_of true ["max_level_debug"%string; "release_max_level_info"%string] = 3.
+  src_static_max_of true ["max_level_debug"%string; "release_max_level_info"%string] = 3 /\
+  src_static_max ["max_level_debug"%string; "max_level_info"%string] = 3 /\
+  src_static_max_of true ["release_max_level_debug"%string; "release_max_level_info"%string; "max_level_error"%string] = 3.
 Proof. exact source_static_max. Qed.
 Print Assumptions C01_source_static_max.
 
@@ -200,7 +202,7 @@ Print Assumptions C01_source_static_max.
 Theorem C01_static_cap_is_configured :
   forall release (on : string -> bool),
   match configured_cap release on with
-  | Some l => static_max_of (g_static_max gen_guard) (g_static_release_falls_through gen_guard) release on = l
+  | Some l => static_max_of (g_static_max gen_guard) (g_static_release_falls_through gen_guard) (g_static_last_wins gen_guard) release on = l
   | None => True
   end.
 Proof. exact source_static_cap_is_configured. Qed.
